@@ -254,10 +254,13 @@ pub fn check_datagram(data: &[u8], res: &mut CaseResult) {
                     }
                 }
             }
-            h = 4 + ((counts[0] + 3 * counts[1] + 7 * counts[2] + 11 * counts[3]) as u128);
+            h = 4 + (crate::sim::fnv128(format!("{m:?}").as_bytes()) >> 8);
         }
     }
     res.outcome = res.outcome.wrapping_mul(31).wrapping_add(h);
+    if h > 3 {
+        res.count("distinct_decodings_hashed", 1);
+    }
 }
 
 // ------------------------------------------------------------------ E1
@@ -595,9 +598,9 @@ pub fn check(tier: &str) -> i32 {
 
     // E1
     let (sigma, maxlen): (&[u8], usize) = if thorough {
-        (&SIGMA_T, 6)
+        (&SIGMA_T, 7)
     } else {
-        (&SIGMA_Q, 5)
+        (&SIGMA_T, 6)
     };
     let per = count_strings(sigma.len(), maxlen);
     let e1 = FnPart {
@@ -625,7 +628,7 @@ pub fn check(tier: &str) -> i32 {
 
     // E2
     let owners = owner_shapes();
-    let rd_max = if thorough { 3 } else { 2 };
+    let rd_max = if thorough { 4 } else { 2 };
     let rd_count = count_strings(SIGMA_Q.len(), rd_max);
     let dims = [
         owners.len() as u64,
